@@ -31,6 +31,19 @@ pub enum ChildOut {
     Missing,
 }
 
+/// how the child consumes the iterator (a pure function of the configuration)
+pub fn style_of(cfg: &Config) -> u64 {
+    fp_of(&format!("{:?}", cfg)) % 4
+}
+/// configurations far too large to drain (and not empty by construction): first showdowns only
+pub fn take_of(cfg: &Config) -> Option<u64> {
+    if cfg.slots() > 1u128 << 40 && cfg.ranges.iter().all(|r| !r.combos.is_empty()) {
+        Some(5)
+    } else {
+        None
+    }
+}
+
 pub fn run_child(profile: &str, cfg: &Config, limit: u64) -> ChildOut {
     let path = child_path(profile);
     if !std::path::Path::new(&path).exists() {
@@ -42,12 +55,12 @@ pub fn run_child(profile: &str, cfg: &Config, limit: u64) -> ChildOut {
     };
     {
         let mut si = child.stdin.take().unwrap();
-        let line = json!({"id": 1, "cfg": cfg, "limit": limit}).to_string();
+        let line = json!({"id": 1, "cfg": cfg, "limit": limit, "style": style_of(cfg), "take": take_of(cfg)}).to_string();
         let _ = si.write_all(line.as_bytes());
         let _ = si.write_all(b"\n");
     }
     // watchdog: generous (debug builds are ~30x slower); a hit is "inconclusive", never a violation
-    let slots = cfg.slots().min(u64::MAX as u128) as u64;
+    let slots = if take_of(cfg).is_some() { 0 } else { cfg.slots().min(u64::MAX as u128) as u64 };
     let budget = Duration::from_secs(60) + Duration::from_micros(slots.saturating_mul(if profile == "release" { 5 } else { 100 }));
     let t0 = Instant::now();
     loop {
@@ -94,7 +107,7 @@ pub fn run_child(profile: &str, cfg: &Config, limit: u64) -> ChildOut {
 /// position.
 pub fn blocked_run_lower_bound(cfg: &Config) -> u64 {
     let deck = deck49(&cfg.flop);
-    let per_pos: u64 = cfg.ranges.iter().map(|r| r.combos.len() as u64).product();
+    let per_pos: u64 = cfg.ranges.iter().fold(1u64, |a, r| a.saturating_mul(r.combos.len() as u64));
     if cfg.ranges.iter().any(|r| r.combos.is_empty()) {
         return 0;
     }
@@ -117,7 +130,7 @@ pub fn blocked_run_lower_bound(cfg: &Config) -> u64 {
                 })
             });
             if dead {
-                cur += per_pos;
+                cur = cur.saturating_add(per_pos);
                 best = best.max(cur);
             } else {
                 cur = 0;
@@ -134,6 +147,9 @@ pub fn check_profiles(cfg: &Config, profiles: &[&str]) -> CheckResult {
     for profile in profiles {
         match run_child(profile, cfg, limit) {
             ChildOut::Ok(n) => {
+                if let Some(k) = take_of(cfg) {
+                    vensure!(n == k, "prefix-short", "[{}] {} ranges of sizes {:?} hold far more than {} legal deals, but the enumeration ended after {} showdowns", profile, cfg.ranges.len(), cfg.ranges.iter().map(|r| r.combos.len()).collect::<Vec<_>>(), k, n);
+                }
                 vensure!(!any_empty || n == 0, "empty-range-yields", "[{}] a player has an empty range but the enumeration yielded {} showdowns", profile, n);
             }
             ChildOut::Over => return Err(Fail::new("over-production", format!("[{}] enumeration yielded more than {} showdowns (the number of odometer slots): it does not terminate properly", profile, limit))),
@@ -187,17 +203,20 @@ pub fn check_profiles(cfg: &Config, profiles: &[&str]) -> CheckResult {
     if any_empty && sizes.iter().fold(1f64, |a, s| a * (*s).max(1) as f64) >= 4294967296.0 {
         cls |= 512;
     }
-    if cfg.scope.is_none() {
+    if cfg.scope.is_none() && take_of(cfg).is_none() {
         cls |= 64;
     }
-    Ok(Outcome::new(run >= 10_000 || special, fp_of(&format!("{:?}", cfg)), cls))
+    if take_of(cfg).is_some() {
+        cls |= 2048;
+    }
+    Ok(Outcome::new(run >= 10_000 || special || take_of(cfg).is_some(), fp_of(&format!("{:?}", cfg)), cls))
 }
 
 pub fn check(cfg: &Config) -> CheckResult {
     check_profiles(cfg, &PROFILES)
 }
 
-pub const CLASSES: &[&str] = &["blocked_run_ge_10k", "blocked_run_ge_100k", "empty_range", "range_over_255", "size_multiple_of_256", "three_plus_players", "unscoped_full_drain", "more_players_than_a_deck_seats", "player_count_ge_128", "empty_range_beside_product_over_2_32", "thirty_thousand_plus_players"];
+pub const CLASSES: &[&str] = &["blocked_run_ge_10k", "blocked_run_ge_100k", "empty_range", "range_over_255", "size_multiple_of_256", "three_plus_players", "unscoped_full_drain", "more_players_than_a_deck_seats", "player_count_ge_128", "empty_range_beside_product_over_2_32", "thirty_thousand_plus_players", "product_of_sizes_beyond_2_64_prefix_only"];
 
 /// a range of `size` combos that all contain `card` (max 51)
 fn holding(card: u8, size: usize, seed: u64) -> RangeSpec {
@@ -209,6 +228,39 @@ fn holding(card: u8, size: usize, seed: u64) -> RangeSpec {
     }
     others.truncate(size.clamp(1, 51));
     RangeSpec { combos: others.iter().map(|o| { let p = norm_pair(card, *o); (p.0, p.1, 1.0) }).collect() }
+}
+
+fn astronomic(flop: [u8; 3], n: usize, sizes: &[usize], seed: u64) -> Config {
+    let deck = deck49(&flop);
+    let mut used: u64 = 1 << deck[0] | 1 << deck[1];
+    for c in flop {
+        used |= 1 << c;
+    }
+    let mut ranges: Vec<RangeSpec> = vec![];
+    for i in 0..n {
+        let mut placed = false;
+        for t in 0..300u64 {
+            let r = sized_range(sizes[i % sizes.len()], seed.wrapping_add(i as u64 * 1_000_003 + t), true);
+            if i + 1 == n {
+                ranges.push(r);
+                placed = true;
+                break;
+            }
+            let h = r.to_espada();
+            let Some((first, _)) = h.card_pairs().iter().next() else { continue };
+            let (a, b) = (cid_of(&first[0]), cid_of(&first[1]));
+            if used >> a & 1 == 0 && used >> b & 1 == 0 {
+                used |= 1 << a | 1 << b;
+                ranges.push(r);
+                placed = true;
+                break;
+            }
+        }
+        if !placed {
+            break;
+        }
+    }
+    Config { flop, ranges, scope: None }
 }
 
 pub fn strategy(slot_budget: u128) -> impl Strategy<Value = Config> {
@@ -282,6 +334,12 @@ pub fn strategy(slot_budget: u128) -> impl Strategy<Value = Config> {
             ranges[k] = RangeSpec { combos: vec![] };
             Config { flop, ranges, scope: if full { None } else { Some((0, 1, 2, 3)) } }
         }),
+        // J: a full table of big ranges (6-12 seats of 100-1000 combos: the product of the sizes is
+        //    beyond 2^64): size_hint(), a collect of the first two and three more showdowns.  The
+        //    first entries (in the library's iteration order) of all seats but the last are made
+        //    disjoint from each other, the flop and the first two deck cards, so that the first
+        //    legal deal is a few odometer steps away
+        2 => (flop_strategy(), 6usize..=12, proptest::collection::vec(100usize..=1000, 12), any::<u64>()).prop_map(|(flop, n, sizes, seed)| astronomic(flop, n, &sizes, seed)),
         // F: moderate pool / free configurations, full drains
         3 => pool_config(2..=4, 6..=10, 5),
         2 => free_config(1..=3, 1, 5),
@@ -289,6 +347,9 @@ pub fn strategy(slot_budget: u128) -> impl Strategy<Value = Config> {
     .prop_map(move |mut c| {
         if c.ranges.iter().any(|r| r.combos.is_empty()) && c.ranges.len() >= 3 {
             return c; // an empty range makes the run empty: nothing to bound
+        }
+        if c.ranges.len() >= 6 && c.ranges.iter().all(|r| r.combos.len() >= 100) {
+            return c; // shape J: only a prefix is taken
         }
         // cost bound on the window actually walked
         let positions: u128 = match c.scope {
@@ -314,7 +375,7 @@ pub fn strategy(slot_budget: u128) -> impl Strategy<Value = Config> {
 }
 
 pub fn run(ctx: &mut Ctx) {
-    ctx.rule = "proptest configurations as data, each drained in a child process on a 2 MiB thread, once per build profile (release: wrapping arithmetic; dbgchk: espada at opt-level 0 with overflow checks and debug assertions): narrow range holding the first deck cards beside wide ranges inside a window of the first turn rows (longest blocked runs), narrow/wide/wide, one player of sizes {0,1,2,255,256,257,511,512,513,768,1024,1326,random} (full drains, first rows, windows at the very end of the deck incl. the empty scope on the terminal position), empty range at any seat, ranges consisting only of flop-card combos, 7-300 single-combo players (23/24/127/128/129/255/256/257 among them), 1,000-100,000 single-combo players in a two-position window, 3-24 big ranges (sizes multiplying past 2^32 and 2^64) with one empty range at any seat, moderate full drains. Violation = child panics / dies on a signal (stack overflow) / yields more showdowns than odometer slots / yields anything with an empty range. Non-trivial = order-independent lower bound of the longest blocked run >= 10,000 slots, or a size in {0,255,256,257,>=512}, or >= 24 players; distinct by configuration.".into();
+    ctx.rule = "proptest configurations as data, each drained in a child process on a 2 MiB thread, once per build profile (release: wrapping arithmetic; dbgchk: espada at opt-level 0 with overflow checks and debug assertions): narrow range holding the first deck cards beside wide ranges inside a window of the first turn rows (longest blocked runs), narrow/wide/wide, one player of sizes {0,1,2,255,256,257,511,512,513,768,1024,1326,random} (full drains, first rows, windows at the very end of the deck incl. the empty scope on the terminal position), empty range at any seat, ranges consisting only of flop-card combos, 7-300 single-combo players (23/24/127/128/129/255/256/257 among them), 1,000-100,000 single-combo players in a two-position window, 3-24 big ranges (sizes multiplying past 2^32 and 2^64) with one empty range at any seat, full tables of 6-12 ranges of 100-1000 combos without an empty one (product beyond 2^64: size_hint(), a collect of the first two and three more showdowns), moderate full drains. The child consumes the iterator in one of four ways chosen by the configuration: for loop, size_hint() before every next(), collect(), nth() with steps 0-3. Violation = child panics / dies on a signal (stack overflow) / yields more showdowns than odometer slots / yields anything with an empty range. Non-trivial = order-independent lower bound of the longest blocked run >= 10,000 slots, or a size in {0,255,256,257,>=512}, or >= 24 players; distinct by configuration.".into();
     ctx.assumptions = vec![
         "a hang that yields nothing can only hit the watchdog (exit 2, inconclusive), never a violation".into(),
         "debug = cargo's dev settings for espada (opt-level 0, overflow checks, debug assertions); third-party crates are optimised".into(),
@@ -330,7 +391,7 @@ pub fn run(ctx: &mut Ctx) {
     let budget = ctx.tier.pick(400_000u128, 3_000_000u128);
     let cases = ctx.tier.pick(480, 6_000);
     ctx.run_random_brief(StreamCfg::new("child_drains", CLASSES, cases).shrink(120), || strategy(budget), check, |c| c.brief());
-    for (c, d) in [("blocked_run_ge_10k", 8), ("empty_range", 10), ("range_over_255", 8), ("size_multiple_of_256", 30), ("unscoped_full_drain", 6), ("more_players_than_a_deck_seats", 30), ("player_count_ge_128", 60)] {
+    for (c, d) in [("blocked_run_ge_10k", 8), ("empty_range", 10), ("range_over_255", 8), ("size_multiple_of_256", 30), ("unscoped_full_drain", 6), ("more_players_than_a_deck_seats", 30), ("player_count_ge_128", 60), ("product_of_sizes_beyond_2_64_prefix_only", 30)] {
         ctx.require_class("child_drains", c, cases / d);
     }
     let wd = WATCHDOG_HITS.load(Ordering::Relaxed);
